@@ -4,9 +4,11 @@ package props
 
 import (
 	"context"
+	"errors"
 	"fmt"
 	"net"
 	"strings"
+	"sync"
 	"testing"
 	"time"
 
@@ -349,7 +351,9 @@ func TestC19Reregistration(t *testing.T) {
 			st = mustOpenBadger(rt, dir)
 			defer st.Close()
 		}
-		p := pool.New(st, nil)
+		mgr := &flakyManager{}
+		ys := &yieldStore{inner: st}
+		p := pool.New(ys, mgr)
 		srv := &jsonrpc2.Server{}
 		if err := srv.Register("vipnode_", p); err != nil {
 			rt.Fatal(err)
@@ -386,6 +390,7 @@ func TestC19Reregistration(t *testing.T) {
 		connIDs := map[*connInfo]map[int]bool{}
 		prober := nodeIdent(4)
 		var probeConn *conn
+		lastHostConn := map[int]*connInfo{}
 		steps := rapid.IntRange(2, 5).Draw(rt, "steps")
 		for s := 0; s < steps; s++ {
 			who := rapid.IntRange(0, 1).Draw(rt, "who")
@@ -400,6 +405,41 @@ func TestC19Reregistration(t *testing.T) {
 			endpoint := rapid.SampledFrom([]string{"connect", "connect", "host", "client"}).Draw(rt, "endpoint")
 			otherBefore, otherErr := st.GetNode(store.NodeID(other.nodeID))
 			selfBefore, selfErr := st.GetNode(store.NodeID(self.nodeID))
+			// sometimes one of this identity's keep-alives (sent over the connection it last registered on as a host) is
+			// still being served while this registration arrives, and then fails in its balance step: the failure must
+			// not bring back the record the keep-alive read at its start
+			var finishKeepalive func() string
+			if prevConn := lastHostConn[who]; prevConn != nil && latest[who] != nil && latest[who].isHost && rapid.IntRange(0, 3).Draw(rt, "keepaliveInFlight") == 0 {
+				entered := make(chan struct{}, 1)
+				releaseGate := make(chan struct{})
+				ys.setHook(func(method string) error {
+					if method == "NodePeers" {
+						select {
+						case entered <- struct{}{}:
+							<-releaseGate
+						default:
+						}
+					}
+					return nil
+				})
+				mgr.set(true)
+				ureq := pool.UpdateRequest{PeerInfo: peerInfos(nil, false), BlockNumber: 77}
+				nonce++
+				un := nonce
+				udone := make(chan error, 1)
+				go func() {
+					var uresp pool.UpdateResponse
+					udone <- prevConn.c.agentSide.Call(ctx, &uresp, "vipnode_update", mustSign(self.key, "vipnode_update", self.nodeID, un, ureq), self.nodeID, un, ureq)
+				}()
+				<-entered
+				finishKeepalive = func() string {
+					close(releaseGate)
+					uerr := <-udone
+					ys.setHook(nil)
+					mgr.set(false)
+					return fmt.Sprintf("   (a keep-alive of %s was being served meanwhile and then failed in the balance step: %v)", self.name, uerr)
+				}
+			}
 			nonce++
 			var err error
 			switch endpoint {
@@ -412,8 +452,15 @@ func TestC19Reregistration(t *testing.T) {
 				var resp pool.HostResponse
 				err = ci.c.agentSide.Call(ctx, &resp, "vipnode_host", mustSign(self.key, "vipnode_host", self.nodeID, nonce, req), self.nodeID, nonce, req)
 			}
+			kaNote := ""
+			if finishKeepalive != nil {
+				kaNote = finishKeepalive()
+			}
 			step := fmt.Sprintf("%s registers via %s over connection %d (source %s) override=%q -> err=%v", self.name, endpoint, indexOfConn(len(conns), func(i int) bool { return conns[i] == ci }), ci.addr, reg.override, err)
 			hist = append(hist, step)
+			if kaNote != "" {
+				hist = append(hist, kaNote)
+			}
 			sig = append(sig, fmt.Sprintf("%d:%s:%s:%s:%v", who, endpoint, reg.userClass, reg.ohClass, err == nil))
 			fail := func(format string, a ...interface{}) {
 				rt.Fatalf("%s\ndriver=%s history:\n  %s", fmt.Sprintf(format, a...), driver, strings.Join(hist, "\n  "))
@@ -470,6 +517,7 @@ func TestC19Reregistration(t *testing.T) {
 				changed = true
 			}
 			latest[who] = &want{isHost: true, host: reg.expHost, port: reg.expPort, hostKnown: reg.hostKnown, uri: selfAfter.URI}
+			lastHostConn[who] = ci
 			// a client that asks right after each registration is handed the address of THIS registration, not one the
 			// pool remembered from an earlier request
 			if probeConn == nil {
@@ -620,4 +668,21 @@ func indexOfConn(n int, is func(int) bool) int {
 		}
 	}
 	return -1
+}
+
+// flakyManager is a balance manager that bills nothing and fails keep-alives on demand.
+type flakyManager struct {
+	mu   sync.Mutex
+	fail bool
+}
+
+func (m *flakyManager) set(b bool)                     { m.mu.Lock(); m.fail = b; m.mu.Unlock() }
+func (m *flakyManager) OnClient(node store.Node) error { return nil }
+func (m *flakyManager) OnUpdate(node store.Node, peers []store.Node) (store.Balance, error) {
+	m.mu.Lock()
+	defer m.mu.Unlock()
+	if m.fail {
+		return store.Balance{}, errors.New("balance backend unavailable")
+	}
+	return store.Balance{}, nil
 }
